@@ -7,7 +7,7 @@ OTHER = {'C01-C': 'C03,C05,C09', 'C01-D': 'C03', 'C02-A': 'C04', 'C02-C': 'C05',
 THOROUGH = {'C07-F', 'C14-F', 'C19-E', 'C19-F', 'C14-S'}
 J = int(sys.argv[sys.argv.index('-j') + 1]) if '-j' in sys.argv else 4
 ids = sorted(os.listdir('/verif/seeded'))
-ids = [i for i in ids if os.path.isdir('/verif/seeded/' + i)]
+ids = [i for i in ids if os.path.isdir('/verif/seeded/' + i) and os.path.exists('/verif/seeded/%s/patch.diff' % i)]
 def run(sid):
     prop = sid[:3]
     checks = prop + (',' + OTHER[sid] if sid in OTHER else '')
